@@ -641,7 +641,7 @@ def gen_cases(run):
             if len(files) > 1:
                 subsets.append(tuple(files))
             subsets = list(dict.fromkeys(subsets))
-            rounds = (0, 1) if thorough else (0,)
+            rounds = (0, 1, 2) if thorough else (0,)
             for sub in subsets:
                 for rd in rounds:
                     c = next(counter)
@@ -763,13 +763,14 @@ def gen_cases(run):
         cases.append(scenario(f"clash/{name}", ("clash", name), deep, nested, renames=mv, newfiles={"unrel.txt": "unrelated"}, full=True))
 
     # ---- (4c) the same name in the other Unicode normal form is a different name
-    nfd = lambda t: unicodedata.normalize("NFD", t)
+    nfd = lambda t: unicodedata.normalize("NFD", t) if unicodedata.normalize("NFD", t) != t else unicodedata.normalize("NFC", t)  # the other form
     names = S.TREES["names"]
+    in_nfd_dir = [os.path.basename(f) for f in files_of(names) if f.startswith(S.NFD + "/")][0]
     for name, nested, mv, fmv in [
         ("file-nfc-to-nfd", [], [("Übung/é.txt", "Übung/" + nfd("é.txt"))], []),
-        ("files-both-histories", [S.NFD], [("Übung/é.txt", "Übung/" + nfd("é.txt")), (S.NFD + "/é.txt", S.NFD + "/" + nfd("é.txt"))], []),
+        ("files-both-histories", [S.NFD], [("Übung/é.txt", "Übung/" + nfd("é.txt")), (S.NFD + "/" + in_nfd_dir, S.NFD + "/" + nfd(in_nfd_dir))], []),
         ("folder-nfc-to-nfd", [], [], [("Übung", nfd("Übung"))]),
-        ("folder-nfd-to-nfc", [], [], [(S.NFD, unicodedata.normalize("NFC", S.NFD))]),
+        ("folder-nfd-to-nfc", [], [], [(S.NFD, nfd(S.NFD))]),
     ]:
         cases.append(scenario(f"norm/{name}", ("norm", name), names, nested, renames=mv, folder_moves=fmv, newfiles={"unrel.txt": "unrelated"}, full=False))
 
@@ -839,7 +840,7 @@ def main():
         "verify after altering a renamed file (twice), and create without -dr on a copy",
         bound="11 trees (<= 7 entries, depth <= 4) x <= 6 nested placements (<= 3 levels); rename sets: 3 singletons per placement (every file "
         "alone under some placement), one sampled pair and triple, the full set (quick) / all subsets of size <= 3, 30 of size 4, the full set, "
-        "2 kind rotations (thorough); targets are fresh, never recorded paths in the same history, contents pairwise distinct, source folders stay "
+        "3 kind rotations (thorough); targets are fresh, never recorded paths in the same history, contents pairwise distinct, source folders stay "
         "unless a whole folder is renamed; formats of earlier vs -dr generation: 6 pairs (quick) / 49 + 60 sampled pairs of format sets (thorough), "
         "repeated -h, default format; options -n -v -i -ii --author/--comment x 6 root spellings; 15 history shapes (12 generations before / after "
         "an earlier rename, varying formats, -n, -sf, failed generation, nested history added later, 1-2 earlier rename steps of the same file, "
